@@ -1013,6 +1013,32 @@ def near(st, n, radius):
     return sorted(pts)
 
 
+def self_describing(st, n):
+    """(p, q) with p strictly inside a frame and wire[p:q] sized as a length prefix read at p says."""
+    w, starts, out = st.wire, set(st.boundaries), []
+    for p in range(1, n - 2):
+        if p in starts:
+            continue
+        sizes = {int.from_bytes(w[p:p + 2], "little") + 2 + 16,      # HAP block: LE16 | data | tag
+                 int.from_bytes(w[p:p + 2], "little") + 2,
+                 int.from_bytes(w[p + 1:p + 4], "big") + 4,           # Companion: type | BE24 | payload
+                 int.from_bytes(w[p + 1:p + 4], "big") + 4 + 16,
+                 int.from_bytes(w[p:p + 4], "big")}                   # data stream: BE32 total size
+        v, shift, i = 0, 0, p                                         # MRP: varint | payload
+        while i < n and i < p + 5:
+            v |= (w[i] & 0x7F) << shift
+            shift += 7
+            i += 1
+            if not w[i - 1] & 0x80:
+                sizes.add(v + (i - p))
+                sizes.add(v + (i - p) + 16)
+                break
+        for size in sizes:
+            if 2 < size and p + size <= n:
+                out.append((p, p + size))
+    return out
+
+
 def make_plan(ctx, n, weight):
     """Which segmentations to try for a stream whose pre-probe part has `n` bytes."""
     if weight == "blocks":     # layered sweep: reads that end on HAP block boundaries
@@ -1072,6 +1098,13 @@ def cut_sets(ctx, st, rng, plan):
         for _ in range(plan["pairs"]):
             a, b = sorted(rng.sample(interesting, 2))
             yield "double", [a, b]
+    # self-describing continuations: a read that starts INSIDE a frame and whose first bytes, taken
+    # for a length prefix of any of the wire formats, describe exactly the size of that read
+    # (a receiver that looks at a read before looking at its buffer mistakes it for a whole frame)
+    described = self_describing(st, n)
+    for a, b in (described if len(described) <= plan.get("described", ctx.scale(120, 1500))
+                 else rng.sample(described, plan.get("described", ctx.scale(120, 1500)))):
+        yield "described", [a] if b == n else [a, b]
     if n <= plan["bytewise"]:
         yield "bytewise", list(range(1, n))
     for _ in range(plan["random"]):
